@@ -20,6 +20,8 @@ RULE = (
     "non-trivial = at least one exception raised or expectation failed."
 )
 REQUIRED = {
+    "mon:handlers.user-inserted-take-precedence": 8,
+    "mon:unclaimed.last-resort-then-reraised": 8,
     "mon:single.outcome-is-mapped-one": 60,
     "mon:multi.outcome-admissible": 300,
     "mon:multi.failure-never-downgraded": 300,
